@@ -29,6 +29,8 @@ CLAIMED = {
          'Static: every native STARK verifier check has an in-circuit twin fed by the corresponding targets; get_challenges_target aligns with the native transcript; set_stark_proof_with_pis_target covers every target and value field; the variable-degree FRI circuit carries every FRI obligation tied to the degree selector; lookup/CTL evaluators agree. Equality of accepted sets is not decided.', '5/C11'),
  'C12': ('typestate pairing of capacity_up_to_mut / fill / set_len length expressions, slot-write coverage, unsafe-block census, Merkle obligation tables (native + circuit), leaf-digest function census',
          'Static: uninitialised digest/cap buffers are filled and set_len uses the same length expression; both child slots and every cap slot are written; unsafe is confined to three reviewed blocks; Merkle verification consumes all siblings, orders two_to_one by the index bit and ends in a comparison/connect with the selected cap entry (native and circuit, unconditional); every leaf->digest conversion is hash_or_noop whose threshold is in bytes of the hasher. Value-level cap equality and index arithmetic are not decided.', '5/C12'),
+ 'C14': ('forward interval abstract interpretation of unsigned straight-line code at the call sites of an unchecked-precondition primitive; constant-table canonicity census; threshold-constant obligation',
+         'Static, deliberately narrow: the unchecked precondition x + y < 2^64 + ORDER of add_no_canonicalize_trashing_input is discharged by interval analysis at every call site; every add/sub_canonical_u64 call passes a literal or an element of a constant table whose literals are all < ORDER; inverse_2exp takes its shortcut threshold from the characteristic\'s two-adicity. Exactness of every operator on every representation, the reduce160 magnitude bound, extension-field axioms and packed lanes are numeric and NOT decided.', '5/C14'),
  'C16': ('field-carriage data-flow for compress/decompress literals, shared-path obligations, schedule-traversal lint, rename-insensitive sibling comparison of the domain walk',
          'Static: non-query fields are carried verbatim by the four compress/decompress routines; compressed verification and decompression derive challenges from the proof itself, infer elements, decompress and end in the same verify_with_challenges; the arity schedule is traversed in order and completely; get_inferred_elements passes the same definitions to the domain-walk calls as fri_verifier_query_round. Round-trip value equality is not decided.', '5/C16'),
  'C17': ('grammar extraction of reader/writer pairs from typed HIR (helpers expanded to byte-level primitives), field-order tracing through result literals/constructors, field coverage, registry comparison',
